@@ -294,6 +294,58 @@ fn add<V: Full>(prop: &mut Property, ctx: &Ctx) {
 }
 
 /// siblings open each other's output
+/// password lengths around the HMAC block sizes (SHA-256: 64, SHA-384: 128; a key longer than the block is hashed
+/// first) and long passwords: the model's blob opens in the library, the library's blob is the model's
+fn password_lengths<V: Full>(prop: &mut Property) {
+    let name = V::NAME;
+    let lens: Vec<usize> = vec![0, 1, 63, 64, 65, 127, 128, 129, 255, 256, 1000];
+    let n = lens.len() as u64 * 2;
+    prop.subs.push(
+        Sub::new(format!("{name}/password-lengths"), n, format!("{{local-pw, secret-pw}} x password lengths {lens:?} (minimum cost): the reference model's blob for a fixed salt and nonce opens in the library to the wrapped key, and the library's own wrap equals the model's blob for the salt / nonce / parameters it embeds"), move |idx, describe| {
+            let secret = idx % 2 == 1;
+            let len = lens[(idx / 2) as usize];
+            let kind = if secret { Kind::PwSecret } else { Kind::PwLocal };
+            let mut o = Outcome::new();
+            if describe {
+                o.sample = Some(json!({"backend": name, "kind": kind.header(), "password_len": len}));
+            }
+            let ks = keys::keyset::<V>(false, 0);
+            let wrapped = if secret { ks.secrets[0].bytes.clone() } else { ks.locals[2].bytes.clone() };
+            let pw: Vec<u8> = (0..len).map(|i| b'A' + (i % 50) as u8).collect();
+            let aes = V::VER == 1 || V::VER == 3;
+            let (sl, nl) = if aes { (32, 16) } else { (16, 24) };
+            let pbytes = params_to_bytes::<V>(&params_for::<V>(Cost::Min));
+            let prefix = [&vec![0x3cu8; sl][..], &pbytes[..], &vec![0x5du8; nl][..]].concat();
+            let kh = kind_header(kind);
+            let base = format!("{name}/password-lengths");
+            match spec::pbkw_wrap(V::VER, kh, &pw, &prefix, &wrapped) {
+                Some(blob) => {
+                    let s = pk::join(&format!("k{}{kh}", V::VER), &blob);
+                    match open::<V>(kind, &s, &pw) {
+                        Ok(Ok(k)) if k == wrapped => o.class("spec-blob-opens"),
+                        other => o.violate(format!("{base}/spec-blob-rejected"), format!("a conforming blob wrapped under a {len}-byte password is not opened: {:?}", other.map(|r| r.map(|k| k.len()))), json!({"blob": s})),
+                    }
+                }
+                None => o.violate_env(format!("{base}/model"), "the reference model cannot build the blob".to_string(), json!({})),
+            }
+            let params = params_for::<V>(Cost::Min);
+            let lib = subject(|| if secret { pk::pw_wrap::<V, Secret>(&wrapped, &pw, Some(&params)) } else { pk::pw_wrap::<V, Local>(&wrapped, &pw, Some(&params)) });
+            match lib {
+                Ok(Ok(s)) => {
+                    let body = pk::split(&s).map(|x| x.1).unwrap_or_default();
+                    match model_from_embedded::<V>(kind, &wrapped, &pw, &body) {
+                        Some(m) if m == body => o.class("library-wrap-equals-model"),
+                        _ => o.violate(format!("{base}/differs-from-spec"), format!("the library's wrap under a {len}-byte password differs from the blob the specification prescribes for the salt / nonce / parameters it embeds"), json!({"blob": s})),
+                    }
+                }
+                other => o.violate(format!("{base}/wrap-failed"), format!("{:?}", other.map(|r| r.is_ok())), json!({})),
+            }
+            o
+        })
+        .witness(&["spec-blob-opens", "library-wrap-equals-model"]),
+    );
+}
+
 fn siblings(prop: &mut Property, ctx: &Ctx) {
     use backends::Visitor;
     struct Make(Kind, usize, u64);
@@ -314,7 +366,33 @@ fn siblings(prop: &mut Property, ctx: &Ctx) {
     for (a, b) in [(2usize, 3usize), (3, 2), (4, 5), (5, 4)] {
         let seed = ctx.seed;
         prop.subs.push(
-            Sub::new(format!("sibling/{}->{}", backends::ALL[a], backends::ALL[b]), 5 * 3, "5 PASERK operations x 3 key variants: a blob made by one backend opens in its sibling to the same key", move |idx, describe| {
+            Sub::new(format!("sibling/{}->{}", backends::ALL[a], backends::ALL[b]), 5 * 3 + 2, "5 PASERK operations x 3 key variants, and password_wrap() with the backend's DEFAULT cost parameters (local and secret key): a blob made by one backend opens in its sibling to the same key", move |idx, describe| {
+                if idx >= 15 {
+                    struct MakeDefault(bool);
+                    impl Visitor for MakeDefault {
+                        type Out = Result<(String, Vec<u8>), String>;
+                        fn visit<V: Full>(self) -> Self::Out {
+                            let ks = keys::keyset::<V>(false, 0);
+                            let key = if self.0 { ks.secrets[0].bytes.clone() } else { ks.locals[2].bytes.clone() };
+                            let r = subject(|| if self.0 { pk::pw_wrap::<V, Secret>(&key, b"default parameters", None) } else { pk::pw_wrap::<V, Local>(&key, b"default parameters", None) })?;
+                            r.map(|s| (s, key)).map_err(|e| crate::payload::err_kind(&e).to_string())
+                        }
+                    }
+                    let secret = idx == 16;
+                    let kind = if secret { Kind::PwSecret } else { Kind::PwLocal };
+                    let mut o = Outcome::new();
+                    if describe {
+                        o.sample = Some(json!({"from": backends::ALL[a], "to": backends::ALL[b], "kind": kind.header(), "parameters": "library defaults"}));
+                    }
+                    match backends::dispatch(a, MakeDefault(secret)) {
+                        Ok((s, key)) => match backends::dispatch(b, Open(kind, &s, b"default parameters")) {
+                            Ok(Ok(k)) if k == key => o.class("sibling-opens"),
+                            other => o.violate_env(format!("sibling/{}->{}/{}/default-parameters", backends::ALL[a], backends::ALL[b], kind.header()), format!("sibling does not open a blob wrapped with the default parameters: {:?}", other.map(|r| r.map(|k| k.len()))), json!({"paserk": s})),
+                        },
+                        Err(e) => o.violate_env("sibling/make-default", e, json!({})),
+                    }
+                    return o;
+                }
                 let kind = crate::c06::KINDS[(idx % 5) as usize];
                 let variant = (idx / 5) as usize;
                 let mut o = Outcome::new();
@@ -438,6 +516,12 @@ pub fn build(ctx: &Ctx) -> Property {
     seq!(backends::V3L);
     seq!(backends::V4);
     seq!(backends::V4S);
+    password_lengths::<backends::V1>(&mut p);
+    password_lengths::<backends::V2>(&mut p);
+    password_lengths::<backends::V3>(&mut p);
+    password_lengths::<backends::V3L>(&mut p);
+    password_lengths::<backends::V4>(&mut p);
+    password_lengths::<backends::V4S>(&mut p);
     seal_shared_secret_classes::<backends::V2>(&mut p);
     seal_shared_secret_classes::<backends::V3>(&mut p);
     seal_shared_secret_classes::<backends::V3L>(&mut p);
